@@ -166,6 +166,75 @@ class _LogEntry(ast.NodeTransformer):
     visit_AsyncFunctionDef = _fn  # type: ignore[assignment]
 
 
+def _signatures(repo: str) -> Dict[tuple, List[str]]:
+    """(module rel, line, col) of every call whose callee the program model knows without type inference -> its
+    positional parameter names (used to respell positional arguments as keywords)."""
+    sys.path.insert(0, VERIF)
+    from sa.pm import Program, walk_local_ordered
+
+    prog = Program(repo)
+    out: Dict[tuple, List[str]] = {}
+    for m in prog.modules.values():
+        for f in m.functions.values():
+            for c in walk_local_ordered(f.node):
+                if isinstance(c, ast.Call):
+                    sig = prog.signature_of_call(m, f, c)
+                    if sig:
+                        out[(m.rel, c.lineno, c.col_offset)] = sig
+    return out
+
+
+class _SwapIndependent(ast.NodeTransformer):
+    """Two adjacent plain assignments to different names, neither reading the other's target and neither calling anything,
+    are swapped (pairs are disjoint: after a swap the scan continues behind the pair)."""
+
+    @staticmethod
+    def _simple(st: ast.stmt) -> bool:
+        return (isinstance(st, ast.Assign) and len(st.targets) == 1 and isinstance(st.targets[0], ast.Name)
+                and not any(isinstance(x, (ast.Call, ast.Await, ast.Yield, ast.YieldFrom, ast.NamedExpr)) for x in ast.walk(st.value)))
+
+    def _block(self, body: List[ast.stmt]) -> List[ast.stmt]:
+        out = list(body)
+        i = 0
+        while i + 1 < len(out):
+            a, b = out[i], out[i + 1]
+            if self._simple(a) and self._simple(b):
+                ta, tb = a.targets[0].id, b.targets[0].id  # type: ignore[attr-defined]
+                reads_a = {x.id for x in ast.walk(a.value) if isinstance(x, ast.Name)}  # type: ignore[attr-defined]
+                reads_b = {x.id for x in ast.walk(b.value) if isinstance(x, ast.Name)}  # type: ignore[attr-defined]
+                if ta != tb and ta not in reads_b and tb not in reads_a:
+                    out[i], out[i + 1] = b, a
+                    i += 2
+                    continue
+            i += 1
+        return out
+
+    def generic_visit(self, node: ast.AST) -> ast.AST:
+        super().generic_visit(node)
+        for fld in ('body', 'orelse', 'finalbody'):
+            v = getattr(node, fld, None)
+            if isinstance(v, list) and v and isinstance(v[0], ast.stmt) and not isinstance(node, (ast.Module, ast.ClassDef)):
+                setattr(node, fld, self._block(v))
+        return node
+
+
+class _Keywordise(ast.NodeTransformer):
+    """f(a, b) -> f(x=a, y=b) for every call whose parameter names are known."""
+
+    def __init__(self, rel: str, sigs: Dict[tuple, List[str]]) -> None:
+        self.rel, self.sigs, self.n = rel, sigs, 0
+
+    def visit_Call(self, c: ast.Call) -> ast.AST:
+        self.generic_visit(c)
+        sig = self.sigs.get((self.rel, getattr(c, 'lineno', -1), getattr(c, 'col_offset', -1)))
+        if sig and c.args and not any(isinstance(a, ast.Starred) for a in c.args) and len(c.args) <= len(sig) and not any(k.arg is None for k in c.keywords):
+            kws = [ast.keyword(arg=sig[i], value=a) for i, a in enumerate(c.args)]
+            c.keywords = kws + c.keywords
+            c.args = []
+            self.n += 1
+        return c
+
+
 def make_twin(repo: str, dest: str, rename: bool, extra: str = '') -> None:
     src = os.path.join(repo, 'src', 'zeroconf')
     for dirpath, dirnames, filenames in os.walk(src):
@@ -189,6 +258,10 @@ def make_twin(repo: str, dest: str, rename: bool, extra: str = '') -> None:
                     tree = _IfExpToIf().visit(tree)
                 if extra == 'aug':
                     tree = _AugToPlain().visit(tree)
+                if extra == 'kwargs':
+                    tree = _Keywordise(rel, _SIGS[0]).visit(tree)
+                if extra == 'reorder':
+                    tree = _SwapIndependent().visit(tree)
                 if extra == 'log':
                     has = any(isinstance(x, ast.ImportFrom) and any(a.name == 'log' for a in x.names) for x in tree.body)
                     tree = _LogEntry(has).visit(tree)
@@ -199,9 +272,13 @@ def make_twin(repo: str, dest: str, rename: bool, extra: str = '') -> None:
                 shutil.copy(full, out)
 
 
+_SIGS: List[Dict[tuple, List[str]]] = [{}]
+
+
 def run(repo: str = '/repo', props: str = 'all') -> int:
     rc_all = 0
-    kinds = [(False, ''), (True, ''), (False, 'flip'), (False, 'swap'), (False, 'rettmp'), (False, 'ifexp'), (False, 'aug'), (False, 'log')]
+    _SIGS[0] = _signatures(repo)
+    kinds = [(False, ''), (True, ''), (False, 'flip'), (False, 'swap'), (False, 'rettmp'), (False, 'ifexp'), (False, 'aug'), (False, 'log'), (False, 'kwargs'), (False, 'reorder')]
     if os.environ.get('VERIF_TWIN_KINDS'):
         want = os.environ['VERIF_TWIN_KINDS'].split(',')
         kinds = [k for k in kinds if (('rename' if k[0] else 'plain') if not k[1] else k[1]) in want]
